@@ -15,6 +15,9 @@ stays None).
 Round 5 (hunt): the gate of wrap_bounds also fires for a NaN coordinate (order
 abstraction with an unordered value; repair 33d3ebf); out-of-box coordinates
 are re-drawn only to finite values (repair 39e0e9c).
+Round 6: the best slot leaves every _Step holding the and_(constraints, bounds)
+image, also on Powell's one-off generation-1 sweep (path rule shared with
+C03.b).
 NOT decided: that the reported best lies in the box (runtime consequence of inf
 energies never winning a <), behaviour of impose_bounds/symbolic bounds on vectors.
 """
@@ -597,3 +600,10 @@ def only_the_decorated_objective_evaluates_the_cost(ctx):
                     ctx.bad('%s#raw-cost' % fi.qualname, '%s evaluates the user\'s raw cost outside the decorated objective (%s): with strict ranges the cost is called outside the box, and the call is neither counted nor logged'
                             % (fi.qualname, u), fi, enclosing_stmt(c) or fi.node, statement='raw cost %s' % u)
     ctx.need(n >= 3, 'expected >= 3 uses of <solver>._cost[1] as a value, found %d' % n)
+
+
+@rule('C02.k', min_instances=6)
+def the_best_slot_leaves_every_step_inside_the_box(ctx):
+    """with the ranges in force from the first iteration a finite reported energy goes with a reported solution inside the box: under strict ranges the constraints every solver applies are and_(constraints, bounds, onfail=bounds) (C02.g), and the best slot must leave every _Step holding that image - on every path, also the one-off generation-1 sweep of Powell (path rule shared with C03.b)"""
+    from .c03 import reported_point_is_constrained_image
+    reported_point_is_constrained_image(ctx)
